@@ -34,7 +34,7 @@
 From Coq Require Import Permutation.
 From Eino Require Import Base.Util Model.Options Model.OptionsSpec Model.OptionsResume Model.OptionsAll
   Proofs.Options Proofs.OptionsResume Proofs.OptionsFired Proofs.OptionsPerm Proofs.OptionsClauses
-  Proofs.OptionsAll.
+  Proofs.OptionsAll Proofs.OptionsFails.
 From Eino Require Base.GoSlice Proofs.CallbacksSlice Model.OptionsSlice Proofs.OptionsSlice Proofs.OptionsSliceScript.
 Local Open Scope N_scope.
 
@@ -111,6 +111,31 @@ Theorem bad_designation_errors :
      exists o q, In o opts /\ In q (o_paths o) /\ bad_path F o 0 q = true).
 Proof. exact run_call_fails_iff. Qed.
 Print Assumptions bad_designation_errors.
+
+(* The same without any hypothesis on the options: the call fails iff some designated path is
+   bad, or some EXECUTING component is handed a value of another Go type than its own
+   ([mistyped]: convertOption in front of the component rejects it; only an Option built by
+   WithLambdaOption(a, b) with values of two types can get there, its first value decides where
+   it is routed). Also for a call that re-enters a run from any checkpoint. *)
+Theorem call_fails_iff :
+  forall F opts,
+    keys_unique F -> well_nested F -> F <> [] ->
+    (fails (run_call F opts) <->
+     (exists o q, In o opts /\ In q (o_paths o) /\ bad_path F o 0 q = true) \/
+     (exists p nd ty it, resolve F 0 p = Some nd /\ n_kind nd = KComp ty /\ executes F 0 p = true /\
+                         In it (spec_delivered opts p ty) /\ fst it <> ty)).
+Proof. exact run_call_fails_iff_general. Qed.
+Print Assumptions call_fails_iff.
+
+Theorem resumed_call_fails_iff :
+  forall F opts c,
+    keys_unique F -> well_nested F -> F <> [] ->
+    (fails (resume_call F opts c) <->
+     (exists o q, In o opts /\ In q (o_paths o) /\ bad_path F o 0 q = true) \/
+     (exists p nd ty it, resolve F 0 p = Some nd /\ n_kind nd = KComp ty /\ executes F 0 p = true /\
+                         In it (spec_delivered opts p ty) /\ fst it <> ty)).
+Proof. exact resume_call_fails_iff_general. Qed.
+Print Assumptions resumed_call_fails_iff.
 
 (* ---- callbacks_only_where_designated ------------------------------------------------ *)
 (* The handlers in the callback manager of any executing node (the top-level graph, a graph
@@ -224,6 +249,13 @@ Theorem failure_independent_of_executing_set :
 Proof. exact would_call_fails_iff. Qed.
 Print Assumptions failure_independent_of_executing_set.
 
+Theorem failure_carries_over_to_all_nodes :
+  forall F opts,
+    keys_unique F -> well_nested F -> F <> [] ->
+    fails (run_call F opts) -> fails (would_call F opts).
+Proof. exact would_call_fails_of_run_fails. Qed.
+Print Assumptions failure_carries_over_to_all_nodes.
+
 (* ... and there is one report per node path (so "the" report of a node is well defined). *)
 Theorem one_report_per_node :
   forall F opts rs,
@@ -274,11 +306,11 @@ Print Assumptions would_resume_same.
    receives the same option values in the same order and has the same handler list). *)
 Theorem map_order_irrelevant :
   forall F F' opts,
-    keys_unique F -> well_nested F -> F <> [] -> Forall uniform opts -> forest_perm F F' ->
+    keys_unique F -> well_nested F -> F <> [] -> forest_perm F F' ->
     (fails (run_call F opts) <-> fails (run_call F' opts)) /\
     (forall rs rs', run_call F opts = Ok rs -> run_call F' opts = Ok rs' ->
        forall r, In r rs <-> In r rs').
-Proof. exact run_call_perm. Qed.
+Proof. exact run_call_perm_general. Qed.
 Print Assumptions map_order_irrelevant.
 
 (* ---- options are values (F-C16a, ed95a2a) -------------------------------------------- *)
@@ -418,6 +450,19 @@ Example bad_examples :
   ~ fails (run_call exF exOpts).
 Proof.
   repeat split; try (vm_compute; reflexivity).
+  - intros a. vm_compute. discriminate.
+  - intros H. eapply H. vm_compute. reflexivity.
+Qed.
+
+(* a mixed option (first value of type 6, second of type 7) is routed by its first value: no
+   designation is bad, the call fails where a type-6 component that executes is handed the second
+   value — and does not fail when the only such component does not execute (2/4/1 in exF) *)
+Example mixed_example :
+  fails (run_call exF [mkOpt [(6, 1); (7, 2)] [] [[1]]]) /\
+  bad_path exF (mkOpt [(6, 1); (7, 2)] [] [[1]]) 0 [1] = false /\
+  ~ fails (run_call exF [mkOpt [(6, 1); (7, 2)] [] [[2; 4; 1]]]).
+Proof.
+  repeat split.
   - intros a. vm_compute. discriminate.
   - intros H. eapply H. vm_compute. reflexivity.
 Qed.
